@@ -103,6 +103,18 @@ def r19_2(run):
                     okc = bool(canc) and bool(tt) and all(not (n in g.reachable([s_ for lab, s_ in t.succ if lab == 'T'], avoid=lambda x: x in canc)) for t in tt)
                     run.ob('R19.2', sc, c, 'a pending launch timeout is cancelled before success is announced', okc, slot='cancel-timeout',
                            message='success is announced with the timeout still armed: it later TERMs the running Tor')
+    gsc = cfg_of(sc)
+    for n in gsc.nodes_where(lambda x: any(is_call_to(a, 'self._timeout_delayed_call.cancel') for a in node_asts(x))):
+        gd = gsc.guarded_by(n, lambda t: isinstance(t, ast.Compare) and isinstance(t.ops[0], (ast.Eq, ast.NotEq)) and const(t.comparators[0]) == 100)
+        ok = any((lab == 'T') == isinstance(t.ast.ops[0], ast.Eq) for t, lab in gd)
+        run.ob('R19.2', sc, n.ast, 'the launch timeout stays armed until bootstrap reaches 100%', ok, slot='cancel-only-at-100',
+               message='the launch timeout is cancelled on a progress event below 100%: a Tor that stalls afterwards is never '
+                       'terminated and launch() never fires')
+    for u2 in class_units(run.idx, pp):
+        if u2 is sc:
+            continue
+        for c2 in calls_in(u2, 'self._timeout_delayed_call.cancel'):
+            run.ob('R19.2', u2, c2, 'the launch timeout is cancelled only on success', False, slot='cancel@%s' % u2.short, message='%s cancels the launch timeout' % u2.short)
     defs = local_defs(sc)
     pd = defs.get('prog', [])
     ok = len(pd) == 1 and pd[0][0] == 'expr' and src(pd[0][1]) == "int(kw['PROGRESS'])"
